@@ -96,3 +96,24 @@ Proof.
     destruct (find_idx _ q) as [[i e]|]; exact Hr.
 Qed.
 Print Assumptions C02_seeks.
+
+(* ================= on files produced by the writer =================
+   W composed with R: on the file written from ANY non-empty strictly ascending es with ANY
+   configuration, after ANY admissible history, move_on_key_greater_than_or_equal_to q returns the
+   entry at ceil_idx es q, move_on_key_lower_than_or_equal_to q the entry at floor_idx es q,
+   move_on_key_equal_to q the entry with key q or None (aspec over the inserted entries). *)
+From Grenad.model Require Import Trailer Writer Reader Spec.
+From Grenad.proofs Require Import ReaderRefine WriterStore.
+
+Theorem C02_written_file_seeks : forall compress decompress c,
+  (forall b z, compress (wc_codec c) (wc_level c) b = Done z -> decompress (wc_codec c) z = Done b) ->
+  forall es i s lg m, wc_levels c < 256 -> 1 <= wc_interval c ->
+  w_run_gen vsink vs_wr vs_fl vs_count compress c vs_empty es = (i, Done (s, lg, m)) ->
+  es <> [] -> sorted_strictb (map fst es) = true ->
+  len (vs_bytes s) < 2^64 -> mem_ok lg ->
+  forall ops, adm_ops es Fresh ops ->
+  exists st rs, run_ops (load_block decompress (vs_bytes s) (m_codec m)) (m_root m) (m_levels m) cs_fresh ops = Done (st, rs) /\
+    Forall2 res_ok (snd (aspec_ops es Fresh ops)) rs /\
+    cs_loads st <= N.of_nat (length ops) * (2 * (m_levels m + 2)).
+Proof. exact written_file_history. Qed.
+Print Assumptions C02_written_file_seeks.
